@@ -800,6 +800,10 @@ pub fn execute(sc: &SimScenario) -> Outcome {
             if lt.exit_panic {
                 props.push("C05");
             }
+            if arch == Arch::Arm {
+                // C16: "the saved original bytes cover exactly the overwritten range"
+                props.push("C16");
+            }
             let rep: Vec<usize> = (0..sc.targets.len()).filter(|t| lt.ops.iter().filter(|o| o.target == *t).count() > 1).collect();
             ck.viol("not-restored-after-scope-exit", &props, format!("{what}: text differs from the original image {:?}; targets faked more than once in this lifetime: {:?}", diffs, rep));
         }
